@@ -35,7 +35,7 @@ def main():
         fid = s["call"].fn.id
         for r in RULES:
             if re.search(r[0], fid):
-                row = {"verdict": r[1], "why": r[2], "sig": s["sig"]}
+                row = {"verdict": r[1], "why": r[2], "sig": s["sig"], "file": s["call"].fn.file}
                 if len(r) > 3:
                     row.update(r[3])
                 rows[s["key"]] = row
